@@ -185,7 +185,7 @@ var families = map[string]*familyRec{}
 type Family[T any] struct {
 	Name string
 	Run  func(T) (fail *Fail, nontrivial bool)
-	// Timeout after which a case that has not returned is reported as a hang (0 = 10 min).
+	// Timeout after which a case that has not returned is reported as a hang (0 = 45 min).
 	Timeout time.Duration
 }
 
@@ -237,7 +237,7 @@ func (f *Family[T]) Each(c *Ctx, workers int, gen func(emit func(T))) {
 	}
 	to := f.Timeout
 	if to == 0 {
-		to = 10 * time.Minute
+		to = 45 * time.Minute
 	}
 	ch := make(chan T, 4*workers)
 	var wg sync.WaitGroup
